@@ -109,7 +109,7 @@ def conform_all(ctx, runs, leasing, name):
             sub += runs[i]
             owner += [i] * len(runs[i])
         reached, total, _ = layers.conform(ctx, DIR, "Trace_Handler.tla", "Trace_Handler.cfg", sub, name="%s%d" % (name, conf["rounds"]),
-                                           cfg_text=TRACE_CFG % ("TRUE" if leasing else "FALSE"), timeout=1800)
+                                           cfg_text=TRACE_CFG % ("TRUE" if leasing else "FALSE"), timeout=3000)
         if reached >= total:
             conf["accepted"] += len(pending)
             pending = []
@@ -167,7 +167,7 @@ def check(ctx, prop):
         raise Broken("harness recorded %d runs for %d schedules" % (len(runs), len(scheds)))
     reqs = [r for r in rows if r["ev"] == "Req"]
     vac = vacuity(prop, reqs)
-    consumed, viol, _ = layers.observe(ctx, DIR, "Obs_Handler.tla", "Obs_Handler.cfg", rows, timeout=1800)
+    consumed, viol, _ = layers.observe(ctx, DIR, "Obs_Handler.tla", "Obs_Handler.cfg", rows, timeout=3000)
     violations, first = [], set()
     for line, inv in sorted(viol):
         if inv not in PRED[prop]:
